@@ -1,0 +1,15 @@
+// +build verif
+
+package logging
+
+// VerifCritHook, when set by the verification harness (/verif), is called by
+// Crit before os.Exit(1); the harness makes it panic so that "Crit reached"
+// becomes an observation instead of killing the exploring process.  nil (the
+// default) keeps the normal behaviour.
+var VerifCritHook func(msg string, ctx []interface{})
+
+func verifCrit(msg string, ctx []interface{}) {
+	if h := VerifCritHook; h != nil {
+		h(msg, ctx)
+	}
+}
